@@ -33,6 +33,12 @@ def run(ctx):
     ]
     ctx.not_covered += ["library-level literalinclude / literalinclude2 (excluded by the property)",
                         "token-level identity of the compiled view: bounded monitor m_docopts only"]
+    # relations of this property on the upstream regression inputs (bounded, never proof)
+    rc = ctx.monitor("m_corpus_rel", "psearch", 400, ctx.seed, 16, json.dumps({"rel": ['docopt']}))
+    ctx.bounded.append({"monitor": "m_corpus_rel", "inputs_tried": rc["tried"], "violation": rc["violation"],
+                        "kind": 'every upstream regression input with --option debug=true / show_splicer_comments=false / doxygen=false: same files, same token streams after comment removal'})
+    if rc["violation"]:
+        ctx.violation("bounded/m_corpus_rel", {"inputs": rc["inputs"], "observed": rc["violation"]}, True)
     if ctx.tier != "thorough":
         r = ctx.monitor("m_docopts", "search", 100, ctx.seed)
         ctx.bounded.append({"monitor": "m_docopts", "inputs_tried": r["tried"], "violation": r["violation"],
